@@ -49,6 +49,11 @@ func (n Number) String() string {
 		return "-Infinity"
 	}
 
+	if n == 0 {
+		// positive and negative zero are both "0"
+		return "0"
+	}
+
 	return strconv.FormatFloat(float64(n), 'f', -1, 64)
 }
 
